@@ -8,3 +8,5 @@ import CruxVerif.Props.C01
 #print axioms Props.C01.core_call_quiescent_flat
 #print axioms Props.C01.process_quiescent_flat
 #print axioms Props.C01.wake_takes_and_queues
+#print axioms Props.C01.direct_observation_quiescent_and_armed
+#print axioms Props.C01.taking_a_waker_wakes_its_task
